@@ -323,6 +323,34 @@ pub fn run(cx: &mut Cx) {
         }
     }
 
+    // (b3) length sweep: versions of exactly k components for every k up to
+    // 70 and around the powers of two up to 2048, each kind of token last.
+    {
+        let sweep = gv::length_sweep();
+        let sweep: Vec<usize> = match cx.tier {
+            crate::fw::Tier::Mini => vec![31, 32, 33],
+            crate::fw::Tier::Small => sweep.into_iter().filter(|k| *k <= 70 || *k == 1024).collect(),
+            _ => sweep,
+        };
+        for (i, k) in sweep.iter().enumerate() {
+            if !cx.mine(i as u64) {
+                continue;
+            }
+            let c = gv::length_cluster(*k);
+            for b in &c {
+                for a in &c {
+                    cx.check(
+                        || format!("length sweep k={k} A={a:?} B={b:?}"),
+                        |ev| {
+                            ev.count("workload/length-sweep");
+                            check_pair(ev, &mut cache, &star, a, b)
+                        },
+                    );
+                }
+            }
+        }
+    }
+
     // (c) corpus: real comparison patterns x real versions.
     if cx.tier != crate::fw::Tier::Mini {
         let pats = corpus::patterns();
